@@ -1232,7 +1232,9 @@ class FloatingPointHelper:
         s,e,m = FloatingPointHelper.fp_to_parts(v)
 
         if (m == 0):
-            return 0,0,0
+            v = math.copysign(1, v)
+            s = 0 if v > 0 else 1
+            return s,0,0
         else:
             if (e >= 128):
                 return s,255,0  # infinity
